@@ -18,6 +18,9 @@ Driver for C01.  Case grammar (one line, fields separated by single spaces):
 * queries  comma-separated `e<path hex>` (exists) | `o<path hex>` (find_offset) | `x<path hex>` (extract)
 * mode     `one` (all queries on one handle) | `fresh` (a new handle per query)
 
+  idx <F,… file spec as above> <paths>      one index file, `SqPackIndex::find_entry` on each path (hex,
+  comma-separated, each with a `/`); `input` = `<index file hex> <paths>`; answers `d<dat id>o<offset>` | `none`
+
 `input` for the implementation: `<platform> <dirs> <files> <queries> <mode>` with
 files = `;`-separated `<dir hex>/<name hex>:<content hex>` — every file encoded by `Spec/`.
 Answers: comma-separated `T` | `F` | `o<decimal>` | `onone` | `x<hex>` | `xnone` | `panic`.
@@ -182,9 +185,44 @@ def modelAnswers (pl : Platform) (dirs : List Bytes) (files : Files) (qs : List 
     if fresh then qs.map (fun q => showAnswer disk (GameData.step disk g q).1)
     else (GameData.answers disk g qs).map (showAnswer disk)
 
+/-- `idx`: one index file, `SqPackIndex::from_existing` + `find_entry` per path -/
+def handleIdx (spec qs : String) : Option String := do
+  let f ← (match spec.splitOn "," with
+    | "F" :: pl :: hk :: dl :: fl :: ents => do
+      let pl ← platOf (← pl.toNat?)
+      let hk ← kindOf (← hk.toNat?)
+      let ents ← ents.mapM (parseEntry hk)
+      some ({ platform := pl, kind := hk, entries := ents, dataSeg := List.replicate (← dl.toNat?) 0xFF,
+              folderSeg := List.replicate (← fl.toNat?) 0x11 } : IndexFile)
+    | _ => none)
+  let paths ← (splitList qs ",").mapM Bytes.ofHexFast
+  if !f.wf then none else
+  let file := encodeIndex f
+  let showE (d : UInt8) (o : UInt64) : String := "d" ++ toString d.toNat ++ "o" ++ toString o.toNat
+  -- paths without a folder separator are outside the property (and panic under `index`)
+  if paths.any (fun p => (hashOf f.kind (Str.lower p)).isNone) then none else
+  let expected := paths.map (fun p =>
+    match findIn f (Str.lower p) with
+    | some e => showE e.datId e.offset
+    | none => "none")
+  let model := match Index.parse file with
+    | none => paths.map (fun _ => "noindex")
+    | some ix => paths.map (fun p =>
+      match Index.findEntry ix p with
+      | none => "panic"
+      | some none => "none"
+      | some (some e) => showE e.dataFileId e.offset)
+  let found := paths.any (fun p => (findIn f (Str.lower p)).isSome)
+  some (answer (Bytes.toHex file ++ " " ++ qs) (",".intercalate expected) (if found then [] else ["triv"])
+    (some (",".intercalate model)))
+
 /-- one case line in, one answer line out (see `Base/Proto.lean`) -/
 def handle (line : String) : String :=
   match fields line with
+  | ["idx", spec, qs] =>
+    match handleIdx spec qs with
+    | some r => r
+    | none => bad
   | ["arch", pl, dirs, slots, dats, qs, mode] =>
     match (do
       let pl ← platOf (← pl.toNat?)
